@@ -10,6 +10,7 @@ import (
 	"os"
 	"os/exec"
 	"path/filepath"
+	"runtime"
 	"strings"
 	"sync"
 	"time"
@@ -19,6 +20,16 @@ type solverDef struct {
 	Name string
 	Args func(file string, timeoutS int) []string
 	Prep func(q string) string
+}
+
+var solverSlots = make(chan struct{}, slotCount())
+
+func slotCount() int {
+	n := runtime.NumCPU()
+	if n < 2 {
+		n = 2
+	}
+	return n
 }
 
 var z3Seeded = solverDef{Name: "z3-5.1.0", Args: func(f string, t int) []string {
@@ -60,6 +71,15 @@ func runSolverCtx(parent context.Context, sd solverDef, file string, timeoutS in
 	ctx, cancel := context.WithTimeout(parent, time.Duration(timeoutS+5)*time.Second)
 	defer cancel()
 	args := sd.Args(file, timeoutS)
+	// one solver process per core: a query's time-out must measure the query, not the queue
+	select {
+	case solverSlots <- struct{}{}:
+		defer func() { <-solverSlots }()
+	case <-parent.Done():
+		return solverAnswer{solver: sd.Name, result: "timeout", out: "cancelled before start"}
+	}
+	ctx, cancel = context.WithTimeout(parent, time.Duration(timeoutS+5)*time.Second)
+	defer cancel()
 	cmd := exec.CommandContext(ctx, args[0], args[1:]...)
 	var out bytes.Buffer
 	cmd.Stdout = &out
@@ -150,6 +170,9 @@ func solveOne(e *Enc, o *Obligation, idx int, opts solveOpts) {
 	ta := opts.TimeoutS
 	if o.IsCover && ta > 5 {
 		ta = 5 // a cover is a vacuity probe: only an unsat answer matters
+	}
+	if nq > 0 && ta > 5 {
+		ta = 5 // the relaxed query is a shortcut (and a source of models); stages I and B follow
 	}
 	a := runSolver(solvers[0], fileA, ta)
 	o.Seconds += a.seconds
